@@ -170,7 +170,18 @@ class G:
         invalid = rng.chance(1, 2)
         if invalid:
             pos = rng.below(len(sug) + 1)
-            sug.insert(pos, self.invalid_stmt())
+            st = self.invalid_stmt()
+            w = rng.below(8)
+            if not st.startswith(("var ", "return", "for (")):
+                if w == 0:
+                    st = "if (a == 1) { %s } else { var q0 = 1; }" % st
+                elif w == 1:
+                    st = "if (a == 1) { var q1 = 1; } else { %s }" % st
+                elif w == 2:
+                    st = "for (var j = 0; j < 2; j++) { %s }" % st
+                elif w == 3:
+                    st = "{ { %s } }" % st
+            sug.insert(pos, st)
         head = "signal input a; signal input b; signal output o[4]; signal output sx; signal output sy; "
         text = "template %s() { %s%s %s }" % (name, head, " ".join(self.decls), " ".join(sug))
         htext = "template %s() { %s%s %s %s }" % (name, head, " ".join(self.decls), " ".join(self.hand_decls), " ".join(hand))
@@ -184,7 +195,18 @@ class G:
                 "if ((x, x)) { }", "var w[(1, 2)];", "var w[2]; w[(0, 1)] = 1;", "if (x) { g(x) = 2; } else { y = 2; }", "while (x) { x + 1 = 2; }",
                 "y = g((1, 2));", "y = x ? U()(x) : 1;", "assert(U()(x));", "log(V()(x, x));", "var w[2]; w[U()(x)] = 1;", "y = g(x);", "y += 2;"]
         for _ in range(rng.below(3)):
-            body.append(rng.choice(opts))
+            st = rng.choice(opts)
+            w = rng.below(8)
+            # the same statement inside nested control flow (then / else / loop / block), next to clean siblings
+            if w == 0:
+                st = "if (x) { %s } else { y = 1; }" % st
+            elif w == 1:
+                st = "if (x) { y = 1; } else { %s }" % st
+            elif w == 2:
+                st = "while (x) { %s }" % st
+            elif w == 3:
+                st = "{ y = 3; { %s } }" % st
+            body.append(st)
         ret = rng.choice(["return y;", "return (y, y);", "return U()(y);", "return y + 1;", "return y;"])
         return name, "function %s(x) { %s %s }" % (name, " ".join(body), ret), None
 
@@ -207,6 +229,10 @@ HAND = [
     "template H15() { signal input a; signal input b; log(\"values\", (a, b + (a, b))); }",
     "template H16() { signal input a; signal input b; log((a, (b, -(a, b)))); }",
     "template H17() { signal input a; signal output o; signal output p; (o, p) <== (a, a + (a, a)); }",
+    "function h18(x) { var r = 0; if (x) { r = U()(x); } else { r = 2; } return r; }",
+    "function h19(x) { var r = 0; if (x) { r = 2; } else { r = (x, 1); } return r; }",
+    "function h20(x) { var r = 0; while (x) { if (x) { r = (x, 1); } else { r = 1; } } return r; }",
+    "template H21() { signal input a; signal output o; if (a == 1) { assert((a, a)); } else { o <== a; } }",
     "template H14() { signal input a; Z()(a); _ <== V()(a, a); (_, _) <== V()(a, a); }",
 ]
 
@@ -297,6 +323,7 @@ def run(ctx):
                 mkeys.append((fidx, nm, kind))
         mout = vlib.run_model(mreqs)
         model = {k: v for k, v in zip(mkeys, mout)}
+        l2_pending = {}
         for fidx, meta in enumerate(metas):
             if len(meta) < 5:
                 continue
@@ -338,8 +365,8 @@ def run(ctx):
                         stats["templates desugared"] += 1
                         if not survived or m[3:] != vlib.sexp(post):
                             l2 += 1
-                            ctx.violation("desugar-correspondence", dict(rpl, stage="L2", model=m[:1500], implementation=(vlib.sexp(post) if survived else "dropped")[:1500],
-                                                                         broken="correspondence Desugar.desugarTemplate <-> remove_syntactic_sugar"), no_input=True)
+                            l2_pending[(fidx, nm)] = dict(rpl, stage="L2", model=m[:1500], implementation=(vlib.sexp(post) if survived else "dropped")[:1500],
+                                                          broken="correspondence Desugar.desugarTemplate <-> remove_syntactic_sugar")
                             continue
                     elif m.startswith("err "):
                         stats["templates rejected"] += 1
@@ -388,7 +415,7 @@ def run(ctx):
         for fidx, meta in enumerate(metas):
             text, defs, spans, p = meta[:4]
             for nm, src, hand in defs:
-                if hand is None or (ctx.tier == "quick" and npairs >= 120):
+                if hand is None or (ctx.tier == "quick" and npairs >= 120 and (fidx, nm) not in l2_pending):
                     continue
                 npairs += 1
                 for tag, body in (("sugar", src), ("hand", hand)):
@@ -421,12 +448,15 @@ def run(ctx):
                     (i == "CS0004") or (i == "CS0008" and re.search(r"`anon_var_\d+_\d+`", m)) for (i, m) in only_s))
                 sig = ("loop-counter-artefact: extra CS0004/CS0008 for the generated anon_var of an anonymous component inside a loop"
                        if counter_artefact else "expansion-findings-differ " + str(sorted(set(fs) ^ set(fh))[:1])[:60])
+                l2_pending.pop((fidx, nm), None)
                 ctx.violation(sig,
                               {"stage": "L1 findings of the sugared template = findings of its hand-written expansion", "sugared": src, "hand_written": hand,
                                "only_sugared": [list(x) for x in (collections.Counter(fs) - collections.Counter(fh))][:6],
                                "only_hand_written": [list(x) for x in (collections.Counter(fh) - collections.Counter(fs))][:6], "broken": None})
             elif len(samples) < 3 and fs:
                 samples.append({"sugared": [x[1] for x in metas[fidx][1] if x[0] == nm][0][:300], "findings": fs[:4]})
+    for payload in l2_pending.values():
+        ctx.violation("desugar-correspondence", payload, no_input=True)
     if not ok:
         ctx.violation("theorem " + ";".join(failing)[:200], {"broken": "theorem", "failing": failing}, no_input=True)
     cov = ctx.coverage
